@@ -548,6 +548,45 @@ def World.setTotal (w : World) (sid : Nat) (u : String) (x : Rat) (V : List (Lis
   | .error e => .error e
   | .ok (d, f) => w.setF sid d (x / f) V
 
+/-! ### unit conversions on one view (`Indexer.get_data / set_data`, `get_property / set_property`, `units=`) -/
+
+/-- `self.units.conversion_factor(units)` of the indexer / property of dimension `d` (base unit kmol/hr, kg/hr or
+m3/hr): pint converts only within one dimension, anything else raises.  (The per-units-object memo `factor_cache` is not
+modelled: the table *is* what it memoises, and it must never answer for a source unit of another dimension.) -/
+def World.viewUnit (w : World) (d : Dim) (u : String) : Except Err Rat :=
+  match findUnit w.units u with
+  | none => .error .unknownUnit
+  | some e => if e.dim = d && d != .other then .ok e.factor else .error .dimension
+
+/-- `imol / imass / ivol .get_data(units, key)` -/
+def World.getData (w : World) (sid : Nat) (d : Dim) (u : String) (ph : Option Char) (i : Nat) (V : List (List Rat)) :
+    Except Err (World × Option Nat × Rat) :=
+  match w.viewUnit d u with
+  | .error e => .error e
+  | .ok f =>
+    match w.getElem sid d ph i V with
+    | .error e => .error e
+    | .ok (w2, vid, x) => .ok (w2, vid, f * x)
+
+/-- `imol / imass / ivol .set_data(x, units, key)` -/
+def World.setData (w : World) (sid : Nat) (d : Dim) (u : String) (ph : Option Char) (i : Nat) (x : Rat)
+    (V : List (List Rat)) : Except Err (World × Option Nat) :=
+  match w.viewUnit d u with
+  | .error e => .error e
+  | .ok f => w.putElem sid d ph i (x / f) V
+
+/-- `get_property('F_mol' | 'F_mass' | 'F_vol', units)` -/
+def World.getProp (w : World) (sid : Nat) (d : Dim) (u : String) (V : List (List Rat)) : Except Err Rat :=
+  match w.viewUnit d u with
+  | .error e => .error e
+  | .ok f => .ok (f * w.F sid d V)
+
+/-- `set_property('F_mol' | 'F_mass' | 'F_vol', x, units)` -/
+def World.setProp (w : World) (sid : Nat) (d : Dim) (u : String) (x : Rat) (V : List (List Rat)) : Except Err World :=
+  match w.viewUnit d u with
+  | .error e => .error e
+  | .ok f => w.setF sid d (x / f) V
+
 /-! ### thermal condition and phase -/
 
 def World.setT (w : World) (sid : Nat) (x : Rat) : World :=
@@ -902,6 +941,11 @@ inductive Op where
   | setFlow (s : Nat) (u : String) (ph : Option Char) (i : Nat) (x : Rat) (V : Mat)
   | getTotal (s : Nat) (u : String) (V : Mat)
   | setTotal (s : Nat) (u : String) (x : Rat) (V : Mat)
+  | getData (s : Nat) (d : Dim) (u : String) (ph : Option Char) (i : Nat) (V : Mat)
+  | setData (s : Nat) (d : Dim) (u : String) (ph : Option Char) (i : Nat) (x : Rat) (V : Mat)
+  | getProp (s : Nat) (d : Dim) (u : String) (V : Mat)
+  | setProp (s : Nat) (d : Dim) (u : String) (x : Rat) (V : Mat)
+  | unitFor (d : Dim) (u : String)
 
 inductive Out where
   | unit
@@ -913,11 +957,12 @@ inductive Out where
 
 /-- stream ids an operation mentions -/
 def Op.sids : Op → List Nat
-  | .new1 .. | .newm .. => []
+  | .new1 .. | .newm .. | .unitFor .. => []
   | .setT s _ | .setP s _ | .setPhase s _ _ | .setPhases s _ _ | .unlink s | .thermo s _ _
   | .sync s _ _ _ _ | .mixInto s _ _ _ | .view s _ | .proxy s | .flowProxy s
   | .readMol s | .readMass s | .readVol s _ | .readF s _ _ | .writeF s _ _ _ | .get s _ _ _ _
-  | .put s _ _ _ _ _ | .putRow s _ _ _ _ | .getFlow s _ _ _ _ | .setFlow s _ _ _ _ _ | .getTotal s _ _ | .setTotal s _ _ _ => [s]
+  | .put s _ _ _ _ _ | .putRow s _ _ _ _ | .getFlow s _ _ _ _ | .setFlow s _ _ _ _ _ | .getTotal s _ _ | .setTotal s _ _ _
+  | .getData s _ _ _ _ _ | .setData s _ _ _ _ _ _ | .getProp s _ _ _ | .setProp s _ _ _ _ => [s]
   | .link s o _ _ _ | .copyLike s o _ => [s, o]
 
 /-- the stream an operation would rebind or re-class; refused for the indexer of a phase view (`LockedPhase`), which only
@@ -977,6 +1022,11 @@ def World.exec (w : World) (op : Op) : Except Err (World × Out) :=
   | .setFlow s u ph i x V => (w.setFlow s u ph i x V).map (fun (w1, vid) => (w1, .wrote vid))
   | .getTotal s u V => (w.getTotal s u V).map (fun x => (w, .num none x))
   | .setTotal s u x V => (w.setTotal s u x V).map (·, .unit)
+  | .getData s d u ph i V => (w.getData s d u ph i V).map (fun (w1, vid, x) => (w1, .num vid x))
+  | .setData s d u ph i x V => (w.setData s d u ph i x V).map (fun (w1, vid) => (w1, .wrote vid))
+  | .getProp s d u V => (w.getProp s d u V).map (fun x => (w, .num none x))
+  | .setProp s d u x V => (w.setProp s d u x V).map (·, .unit)
+  | .unitFor d u => (w.viewUnit d u).map (fun f => (w, .num none f))
 
 def World.step (w : World) (op : Op) : World :=
   match w.exec op with
